@@ -25,6 +25,9 @@ def run(tier, seed):
     items = [(F.numparam_add('C13'),), (F.sanitize('C13'),), (F.mpc2system('C13'),), (F.system2mpc('C13'),),
              (F.psse_bus('C13'),), (F.psse_load('C13'),), (F.psse_fshunt('C13'),), (F.psse_gen('C13'),), (F.psse_line('C13'),),
              (F.psse_transf2('C13'), F.WIT_TRANSF, F.replay_transf)]
+    # the table handed to the xlsx / json writers (cache.df_in): input-base values, converters applied to those
+    from contracts import fn_pu
+    items += [(fn_pu.as_dict('C13'),), (fn_pu.as_dict('C13', converter=True),)]
     run_contracts(pack, items)
     # F14: outside the proved precondition; confirmed natively on every run while it is listed
     name = 'C13/andes/io/matpower.py:system2mpc/requires:at-most-one-PQ-and-one-Shunt-per-bus'
